@@ -348,7 +348,7 @@ class Report:
             order = {"property": 0, "correspondence": 1, "proof": 2}
             vs = sorted(self.violations, key=lambda v: (v["no_input"], order.get(v["kind"], 3)))
             seen = set()
-            for v in vs[:5]:
+            for v in vs[:int(os.environ.get("VERIF_MAXREPORT", "5"))]:
                 blob = json.dumps(v, sort_keys=True, default=str)
                 h = hashlib.sha1(blob.encode()).hexdigest()[:10]
                 if h in seen:
@@ -369,3 +369,29 @@ class Report:
             self.pid, self.tier, cov.get("evaluations", 0), cov.get("distinct_nontrivial", 0), cov.get("discharged", 0),
             cov.get("obligations", 0), len(self.violations), len(self.known_hits), time.time() - self.t0))
         return rc
+
+
+def guarded(pid, main):
+    """Run a harness main(); an internal failure (model does not build, worker crashed, ...) is reported
+    as a violation without a failing input instead of a traceback: the property is no longer shown."""
+    import traceback
+    try:
+        main()
+    except SystemExit:
+        raise
+    except BaseException as e:  # noqa
+        tb = traceback.format_exc()
+        os.makedirs(os.path.join(VERIF, "replays"), exist_ok=True)
+        h = hashlib.sha1(tb.encode()).hexdigest()[:10]
+        path = os.path.join(VERIF, "replays", "%s-%s.json" % (pid, h))
+        with open(path, "w") as f:
+            json.dump(dict(property=pid, kind="machinery", what="the check could not be completed: model/proof build, correspondence evaluation or implementation worker failed",
+                           broken="see traceback: names the Coq file / correspondence stage that no longer checks", traceback=tb[-6000:]), f, indent=1)
+        print("VIOLATION property=%s replay=%s no-failing-input-found" % (pid, path))
+        print("  [machinery] " + tb[-1200:])
+        ev = dict(property_id=pid, tier=os.environ.get("VERIF_TIER", "quick") if os.environ.get("VERIF_TIER") in ("quick", "thorough") else "quick",
+                  seed=0, level="proof", coverage=dict(obligations=1, discharged=0, checker_cmd="coq_makefile + make; coqc props/%s.v" % pid, trusted_base=list(TRUSTED_BASE_COMMON),
+                  explanation="check aborted: " + tb[-500:]), wall_s=0.0, violations=1)
+        os.makedirs(os.path.join(VERIF, "evidence"), exist_ok=True)
+        json.dump(ev, open(os.path.join(VERIF, "evidence", pid + ".json"), "w"), indent=1)
+        sys.exit(1)
